@@ -293,6 +293,15 @@ func (w *World) Observe(txs []txgen.Tx, res *sim.BlockRes) {
 				}
 			}
 		case "OLVM":
+			if len(parts) == 4 && parts[3] == "factoryrv" {
+				n, _ := strconv.ParseUint(parts[2], 10, 64)
+				for _, e := range w.G.U.Eth {
+					if e.Name == parts[1] {
+						w.FactoriesRv = append(w.FactoriesRv, ethcrypto.CreateAddress(e.Addr, n))
+					}
+				}
+				parts = parts[:3]
+			}
 			if len(parts) == 4 && parts[3] == "nest" {
 				n, _ := strconv.ParseUint(parts[2], 10, 64)
 				for _, e := range w.G.U.Eth {
